@@ -36,6 +36,9 @@ class NumpyT(models.NumpyModel):
     np_asarray = np_ascontiguousarray
 
     def np_array(self, interp, x, dtype=None, copy=True, **k):
+        if isinstance(x, list) and len(x) == 1 and isinstance(x[0], TArr) and x[0].shape == ():
+            e = x[0]
+            return e.derive(idx=e.idx + ((("new",),),), shape=(1,), buf=fresh_buf())
         if isinstance(x, TArr):
             return x.derive(buf=fresh_buf(), dtype=_dt(dtype) if dtype is not None else x.dtype)
         if isinstance(x, list) and len(x) == 1 and isinstance(x[0], TArr):
@@ -98,7 +101,26 @@ class NumpyT(models.NumpyModel):
         return TArr(("concat", axis) + tuple(x.nf() for x in xs), shape=sh, dtype=xs[0].dtype)
 
     def np_isscalar(self, interp, x):
+        if isinstance(x, TArr):
+            return x.shape == ()  # indexing a 1-d array with an int gives a numpy scalar
         return isinstance(x, (int, float, SNum))
+
+    def np_atleast_1d(self, interp, x):
+        if isinstance(x, TArr) and x.shape == ():
+            return x.derive(idx=x.idx + ((("new",),),), shape=(1,))
+        return x
+
+    def _derived(self, name):
+        def f(interp, *a, **k):
+            from .tarr import _tok
+            return TArr((name, _tok(a), _tok(tuple(sorted(k.items())))), shape=None)
+        return f
+
+    def sym_getattr(self, interp, name):
+        if name in ("mean", "einsum", "sum", "sqrt", "dot", "cross", "linalg"):
+            f = self._derived(name)
+            return lambda *a, **k: f(interp, *a, **k)
+        return super().sym_getattr(interp, name)
 
     def np_may_share_memory(self, interp, a, b):
         return a.buf == b.buf
